@@ -20,14 +20,24 @@ def base_inputs(rng, n, truncation_bases=0):
             data, notes = pktgen.perturb(rng, p)
         else:
             data, notes = pktgen.noise(rng), ["noise"]
-        yield p["start"], p["et"], data, {"layers": "/".join(p["layers"]), "notes": notes}
+        yield p["start"], p["et"], data, mkmeta(rng, p, data, notes)
     for i in range(truncation_bases):
         p = pktgen.gen_packet(rng)
         data = bytes(p["data"])
         if len(data) > 160:
             continue
         for cut in range(len(data) + 1):
-            yield p["start"], p["et"], data[:cut], {"layers": "/".join(p["layers"]), "notes": ["cut@%d" % cut]}
+            yield p["start"], p["et"], data[:cut], mkmeta(rng, p, data[:cut], ["cut@%d" % cut])
+
+
+def mkmeta(rng, p, data, notes):
+    """everything a property module needs to rebuild the op lines of a case from its input bytes"""
+    return {"layers": "/".join(p["layers"]), "notes": notes, "start": p["start"], "et": p["et"], "data": hx(data),
+            "nh": rng.choice([0, 43, 44, 51, 60, 17]), "k": rng.randrange(4)}
+
+
+def meta_bytes(meta):
+    return bytes.fromhex(meta["data"]) if meta["data"] != "-" else b""
 
 
 def entry_suffix(start, et):
@@ -255,7 +265,7 @@ def split_top(s):
 def shift_windows(s, k):
     """add k to every window offset and error offset in a canonical output."""
     s = re.sub(r"\((\d+),(\d+)\)", lambda m: "(%d,%s)" % (int(m.group(1)) + k, m.group(2)), s)
-    s = re.sub(r"off=(\d+)", lambda m: "off=%d" % (int(m.group(1)) + k), s)
+    s = re.sub(r"(?<![a-z])off=(\d+)", lambda m: "off=%d" % (int(m.group(1)) + k), s)
     return s
 
 
